@@ -7,16 +7,21 @@ VARIABLE l
 TraceLog == ndJsonDeserialize(IOEnv.TRACE)
 Line == TraceLog[l]
 
-ObsMatch(t) == t.prc = 0 /\ t.rcn >= 0 /\ \A j \in 1..Len(t.st) : t.st[j] = 1
+\* layer "api": one call of matrixValidateCertsExt; layer "session": one client session created with the expected name
+ObsMatch(t) == IF t.layer = "api" THEN t.prc = 0 /\ t.rcn >= 0 /\ \A j \in 1..Len(t.st) : t.st[j] = 1
+               ELSE t.hc = 1
+Usable(t) == IF t.layer = "api" THEN t.prc = 0 ELSE t.newok = 1
 
 \* completeness is claimed for names without trailing dots
-Plain(t) == ~t.x.tdot /\ \A k \in 1..Len(t.sans) : ~t.sans[k].tdot
+Plain(t) == ~t.v.dns.tdot /\ ~t.v.email.tdot /\ \A k \in 1..Len(t.sans) : ~t.sans[k].tdot
 
 TName ==
     /\ l <= Len(TraceLog) /\ Line.ev = "validate"
     /\ LET t == Line IN
-       /\ ObsMatch(t) => Match(t.x, t.sans, t.cn, TRUE)                      \* accepted only if issued for that name
-       /\ (Match(t.x, t.sans, t.cn, FALSE) /\ Plain(t) /\ t.prc = 0) => ObsMatch(t)
+       \* accepted only if issued for that name (skip: the documented opt-out, nothing is claimed)
+       /\ (ObsMatch(t) /\ ~t.skip) => MatchOpt(t.v, t.sans, t.cn, t.nt, t.cnalways, TRUE)
+       \* and a certificate that does carry the name is not turned away (gnv: the expected name is screened first, stricter)
+       /\ ((t.skip \/ MatchOpt(t.v, t.sans, t.cn, t.nt, t.cnalways, t.ci)) /\ LegalOpts(t.nt, t.cnalways) /\ Plain(t) /\ ~t.gnv /\ Usable(t)) => ObsMatch(t)
     /\ l' = l + 1
 
 TSkip == /\ l <= Len(TraceLog) /\ Line.ev # "validate" /\ l' = l + 1
